@@ -427,6 +427,9 @@ func checkC15(c *Ctx) {
 		func(t *Trace) string {
 			r, _, ok := c.findRel(t, "Buffer).Len(", "", 0, -1)
 			if !ok {
+				if c.flagTrueByTest(w, t, "bufferExceeded", len(t.Items)) && t.Has("emb:Write") && !t.Has("buffer-write") {
+					return "" // already streaming: pass through
+				}
 				return "buffered size is never compared with the cap"
 			}
 			over := r.Lo > 0 && r.Hi == posInf
@@ -440,8 +443,22 @@ func checkC15(c *Ctx) {
 				if !c.flagTrue(w, t, "bufferExceeded", -1) {
 					return "streaming fallback does not latch bufferExceeded (Finish would compress a partial buffer)"
 				}
-			} else if t.Has("emb:Write") {
+			} else if t.Has("emb:Write") && !c.flagTrueByTest(w, t, "bufferExceeded", len(t.Items)) {
 				return "bytes streamed although the buffer cap was not exceeded"
+			}
+			// nothing may be buffered once the response is being streamed: Finish would never send it
+			if t.Has("buffer-write") {
+				tested := false
+				for _, it := range t.Items {
+					if _, isIf := it.Instr.(*ssa.If); isIf {
+						if o, ok := c.condRel(it).Orient("fld:"+w.Key+".bufferExceeded", ""); ok && o.Y == "" && !o.Neq && o.Lo == 0 && o.Hi == 0 {
+							tested = true
+						}
+					}
+				}
+				if !tested {
+					return "bytes are buffered without checking that the response is not already being streamed (after the cap was exceeded a later small write is buffered and never delivered: the response loses its tail)"
+				}
 			}
 			return ""
 		})
